@@ -26,6 +26,8 @@ Requests
   (`Signed*SubKey::verify_bindings`)
 * `snd_cert pv= pid= pfp= pm= ps= u=<wl>:<id bx>:<sig>.<sig>… a=… r=<sig> d=<sig>
    s=<ver>:<keyid>:<fp>:<mat>:<wl>:<ser bx>:<sig>.<sig>… ht= lg=`  (`Signed*Key::verify_bindings`)
+* `snd_msg i=<index> m=<OPS body|->:<signature body> … data=<bx> kv= … ht= lg=` (`verify_nested_explicit`
+  on a message with several signatures, each hashed in its own mode)
 * `snd_fields sig=<packet body>` → `ok:<name>@<off>+<len>,…` | `err:parse`
 -/
 namespace Rpgp.Ops.C02
@@ -221,6 +223,43 @@ def handleCert (a : Args) : Option String := do
     pure (showRes (verifyCertificate (prims t) p { users := u, attrs := av, revocations := r, directs := d } s))
   | _, _, _, _, _ => pure "err:parse"
 
+def parseMsgSig (s : String) : Option (Option MsgSig) :=
+  match s.splitOn ":" with
+  | [o, g] => do
+    let body ← fromHex g
+    if o = "-" then
+      pure ((parseSigPrefix body).map fun sg => { ops := none, sig := sg })
+    else do
+      let ob ← fromHex o
+      pure (do
+        let w ← parseOpsPrefix ob
+        let sg ← parseSig body
+        pure { ops := some (ofWireOps w), sig := sg })
+  | _ => none
+
+/-- `snd_msg i=<index> m=<ops|->:<sig> … data= k… ht= lg=`: `verify_nested_explicit(i, key)` on a
+message with several signatures (in order of appearance, one-pass headers paired with their
+trailing signatures) -/
+def handleMsg (a : Args) : Option String := do
+  let i ← a.nat "i"
+  let t ← tablesOf a
+  let k ← vkeyOf a "k"
+  let d ← (a.get? "data") >>= parseBx
+  let ms ← (Args.all a "m").mapM parseMsgSig
+  match ms.mapM id with
+  | none => pure "err:parse"
+  | some sigs =>
+    match inlineSlotsPre hashKnown sigs (if d.isEmpty then [] else [d]) with
+    | .error g => pure ("err:" ++ guardName g)
+    | .ok slots =>
+      match sigs[i]?, slots[i]? with
+      | some m, some none => pure (showRes (verifyInline (prims t) k m.sig none))
+      | some m, some (some (_, p)) =>
+        match lookup t p with
+        | none => pure "err:norow"
+        | some dg => pure (showRes (verifyInline (prims t) k m.sig (some dg)))
+      | _, _ => pure "err:noneslot"
+
 def handleFields (a : Args) : Option String := do
   let body ← a.bytes "sig"
   match Wire.sigParse (Wire.embFor body) body with
@@ -235,6 +274,7 @@ def handle (op : String) (a : Args) : Option String :=
   | "snd_bind" => handleBind a
   | "snd_cert" => handleCert a
   | "snd_fields" => handleFields a
+  | "snd_msg" => handleMsg a
   | _ => none
 
 end Rpgp.Ops.C02
